@@ -70,11 +70,15 @@ impl<T: TokenStream> ParserBase<T> {
 
     #[inline]
     pub(crate) fn start_node(&mut self, kind: SyntaxKind) {
+        #[cfg(feature = "verif")]
+        crate::verif::tick(crate::verif::Tick::StartNode);
         self.builder.start_node(kind.into());
     }
 
     #[inline]
     pub(crate) fn start_node_at(&mut self, checkpoint: Checkpoint, kind: SyntaxKind) {
+        #[cfg(feature = "verif")]
+        crate::verif::tick(crate::verif::Tick::StartNode);
         self.builder.start_node_at(checkpoint, kind.into());
     }
 
@@ -170,6 +174,8 @@ impl<T: TokenStream> ParserBase<T> {
     }
 
     pub fn save(&mut self) {
+        #[cfg(feature = "verif")]
+        crate::verif::tick(crate::verif::Tick::Save);
         let text = self.token_stream.text(self.current_range.clone());
         self.builder.token(self.peek().into(), text);
 
@@ -185,6 +191,8 @@ impl<T: TokenStream> ParserBase<T> {
     }
 
     pub fn lex(&mut self) {
+        #[cfg(feature = "verif")]
+        crate::verif::tick(crate::verif::Tick::Lex);
         let start = self.token_stream.cursor();
         self.current = self.token_stream.eat();
         let end = self.token_stream.cursor();
